@@ -148,6 +148,12 @@ var wraps = map[string]string{
 	"carry#4":            "x := source()\n\ty := x + k()\n\tfor i := 0; i < 2; i++ {\n\t\tif c() {\n\t\t\topaque++\n\t\t\tcontinue\n\t\t}\n\t\topaque--\n\t}\n\tsink(y)",
 	"phi#2":              "x := source()\n\ty := k()\n\tif c() {\n\t\ty = k() + \"a\"\n\t} else {\n\t\ty = x\n\t}\n\tsink(y)",
 	"phi#3":              "y := source()\n\tfor i := 0; i < 2; i++ {\n\t\ty = y + k()\n\t}\n\tsink(y)",
+	"range:0":            "m := mkMap(source())\n\tfor _, v := range m {\n\t\tsink(v)\n\t}",
+	"next:0":             "m := mkMap(source())\n\tfor _, v := range m {\n\t\tsink(v)\n\t}",
+	"extract:next":       "m := mkMap(source())\n\tfor _, v := range m {\n\t\tsink(v)\n\t}",
+	"extract:next#2":     "m := map[string]string{source(): k()}\n\tfor kk := range m {\n\t\tsink(kk)\n\t}",
+	"select:0":           "ch := mkCh(source())\n\tselect {\n\tcase v := <-ch:\n\t\tsink(v)\n\t}",
+	"extract:select":     "ch := mkCh(source())\n\tch2 := mkCh(k())\n\tselect {\n\tcase v := <-ch:\n\t\tsink(v)\n\tcase w := <-ch2:\n\t\t_ = w\n\t}",
 	"edge:binding#2":     "h := mkH(source())\n\tsink(h.f())",
 	"edge:arg#2":         "x := source()\n\tsink3(k(), k(), x)",
 	"edge:return#2":      "_, y := id2(k(), source())\n\tsink(y)",
@@ -208,6 +214,10 @@ func templateFor(d *fnDump, f failure) string {
 				return "extract:lookup"
 			case *ssa.UnOp:
 				return "extract:unop"
+			case *ssa.Next:
+				return "extract:next"
+			case *ssa.Select:
+				return "extract:select"
 			}
 			return ""
 		}
